@@ -340,7 +340,13 @@ def run_case(prop, name, params, budget=None):
             res["obligations"] += 1
             verdict = None
             model = None
-            if o.kind == "eq":
+            if o.kind == "eq" and (o.impl is o.ref or (z3.is_expr(o.impl) and z3.is_expr(o.ref) and o.impl.eq(o.ref))):
+                # syntactically identical terms (hash-consed ASTs)
+                verdict = "discharged"
+                res["by_identity"] = res.get("by_identity", 0) + 1
+                if not (z3.is_rational_value(o.ref) and o.ref.as_fraction() == 0):
+                    res["nontrivial"] += 1
+            elif o.kind == "eq":
                 try:
                     d, d1, d2 = S.cross_diff(o.impl, o.ref, rcache)
                 except ValueError:
